@@ -34,12 +34,18 @@ func lexPool(kind string) []lexItem {
 		add("Word|Quoted", "q", "\"q\"", "\"a b\"")
 		add("Comment", "c", "/* c */", "/**/", "/* a\nb */", "/* ' */", "/*/ c */", "/*/*/", "/***/", "/* boxed **/", "/** doc */")
 		add("Symbol", "s", "+", "-", "*", "/", "%", "^", "(", ")", "[", "]", ",", "<", ">", "=", "<=", ">=", "<>", "!=", "<<", ">>", "!", "&", ";")
+		// identifiers that merely contain a keyword, or a letter that case-folds onto a keyword's letter
+		add("Word", "w", "andy", "inn", "isle", "nota", "xors", "truest", "falsey", "liked", "li\u212ae", "LI\u212aE")
+		// every other ASCII punctuation character is a symbol of its own
+		add("Symbol", "s", "$", ":", "?", "@", "\\", "`", "{", "|", "}", "~", "#")
 	} else {
 		add("Word", "w", "abc", "a1", "жук", "Éa", "e", "x_y", "Øre", "ñu", "ÿz", "net-price"[:3])
 		add("Integer", "n", "0", "12", "-3")
 		add("Float", "n", "1.5", "-0.5", ".5", "-.25")
 		add("Quoted", "q", "'a'", "\"b c\"", "''", "'é\nж'", "'\"'")
 		add("Symbol", "s", "<", ">", "=", "<=", ">=", "<>", "+", "*", "/", "(", ")", ",", ";", "!", "{", "}")
+		// every other ASCII punctuation character is a symbol of its own (the underscore included: here it continues a word but does not start one)
+		add("Symbol", "s", "_", "$", "%", "&", ":", "?", "@", "[", "\\", "]", "^", "`", "|", "~")
 	}
 	return p
 }
@@ -90,7 +96,7 @@ func (c *Ctx) lexRun() map[string]*simpleVerdict {
 					if strings.ContainsAny(sym.text, "-./") && other.kind == "n" {
 						continue
 					}
-					if kind == "generic" && strings.ContainsAny(sym.text, "-.") {
+					if kind == "generic" && strings.ContainsAny(sym.text, "-._") {
 						continue
 					}
 					seqs = append(seqs, seq{a.text + b.text, []lexItem{a, b}})
